@@ -32,6 +32,7 @@ def plan(tier, seed):
     nb = 16 if tier == "quick" else 48
     shards += [{"part": "b", "i": i, "n": nb} for i in range(nb)]
     shards += [{"part": "blong"}, {"part": "c"}]
+    shards += [{"part": "c2", "i": i, "n": 8} for i in range(8)]
     nd = 16 if tier == "quick" else 32
     shards += [{"part": "d", "i": i, "n": nd} for i in range(nd)]
     return shards
@@ -192,6 +193,94 @@ def _part_c(tier, res):
     res.counters["cache_transitions"] = transitions
     res.counters["max_cache_depth"] = maxd
     res.sample({"part": "c", "history": [C_STRINGS[i] for i in (0, 1, 4, 0)]}, limit=1)
+
+
+# ------------------------------------------------------------------ (c2)
+# histories over the SHARED default cache: every function of rich.cells that could write to it
+C2_STRINGS = ["abcde", "ああ", "aあb", "áb", "ab", ""]
+
+
+def _c2_events():
+    ev = [("len", s) for s in C2_STRINGS]
+    for s in C2_STRINGS[:4]:
+        for w in (2, 3):
+            for pos in (0, 1, 3):
+                ev.append(("chop", s, w, pos))
+        for n in (1, 3):
+            ev.append(("size", s, n))
+    return ev
+
+
+def _default_cache():
+    from rich.cells import cell_len
+    return cell_len.__defaults__[0]
+
+
+def _run_history2(hist, res=None):
+    """Replays a history on the emptied default cache; after every event every string seen so far
+    (menu strings and produced pieces) is re-measured. -> (violations, canon)"""
+    from rich.cells import cell_len, chop_cells, set_cell_size, _get_codepoint_cell_size
+    cache = _default_cache()
+    cache.clear()
+    _get_codepoint_cell_size.cache_clear()
+    seen = list(C2_STRINGS)
+    vio = []
+    for ev in hist:
+        if ev[0] == "len":
+            got = cell_len(ev[1])
+            if got != sw(ev[1]):
+                vio.append(("cache-history/result-changed/cell_len", "cell_len(%r)=%r reference %r" % (ev[1], got, sw(ev[1]))))
+        elif ev[0] == "chop":
+            pieces = chop_cells(ev[1], ev[2], ev[3])
+            if "".join(pieces) != ev[1]:
+                vio.append(("cache-history/chop_cells/concat", "%r -> %r" % (ev, pieces)))
+            seen += [p for p in pieces if p not in seen]
+        else:
+            out = set_cell_size(ev[1], ev[2])
+            err = _judge_set_cell_size(ev[1], ev[2], out)
+            if err:
+                vio.append(("cache-history/set_cell_size/" + err[0], "%r -> %r: %s" % (ev, out, err[1])))
+            if out not in seen:
+                seen.append(out)
+        for t in seen:
+            got = cell_len(t)
+            if got != sw(t):
+                vio.append(("cache-history/result-changed/after-%s" % ev[0],
+                            "after %r: cell_len(%r)=%r reference %r" % (ev, t, got, sw(t))))
+                break
+    canon = tuple(sorted((k, v) for k, v in cache.items()))
+    return vio, canon
+
+
+def _part_c2(sh, tier, res):
+    import collections
+    maxdepth = 3 if tier == "quick" else 4
+    events = _c2_events()
+    first = events[sh["i"]::sh["n"]]
+    seen = set()
+    frontier = collections.deque([[e] for e in first])
+    transitions = 0
+    while frontier:
+        hist = frontier.popleft()
+        vio, canon = _run_history2(hist)
+        transitions += 1
+        res.evaluations += 1
+        for key, detail in vio:
+            res.violate(key, {"part": "c2", "history": [list(e) for e in hist]}, detail)
+        res.sig(("c2", hist[-1][0], len(canon) if len(canon) < 6 else 6), nontrivial=len(hist) > 1)
+        if vio or len(hist) >= maxdepth or canon in seen:
+            continue
+        seen.add(canon)
+        if deadline_passed():
+            res.capped = True
+            break
+        for ev in events:
+            frontier.append(hist + [ev])
+    _default_cache().clear()
+    res.count("cache_states", len(seen))
+    res.count("cache_transitions", transitions)
+    if sh["i"] == 0:
+        res.sample({"part": "c2", "history": [["chop", "abcde", 3, 3], ["len", "ab"]]}, limit=1)
 
 
 # ------------------------------------------------------------------ (d)
@@ -458,6 +547,8 @@ def run_shard(sh, tier, seed):
         _part_blong(res)
     elif p == "c":
         _part_c(tier, res)
+    elif p == "c2":
+        _part_c2(sh, tier, res)
     elif p == "d":
         _part_d(sh, tier, res)
     return res
@@ -468,7 +559,9 @@ def describe(tier, seed, res):
         "rule": "(a) all 1,114,112 code points twice (ascending, descending) against a linear table scan; "
                 "(b) all strings over {a, U+3042, U+0301, space} of length <=%d x set_cell_size n=0..14 x chop_cells w=2..8, "
                 "plus 252 strings of 60..80 chars; (c) BFS over cell_len histories on a 2-entry LRUCache over 6 strings, "
-                "dedup on (ordered cache contents, measured non-ASCII code points); (d) all lists of <=3 segments over "
+                "dedup on (ordered cache contents, measured non-ASCII code points); (c2) BFS over histories of "
+                "{cell_len, chop_cells(s, w, position), set_cell_size} on the shared default cache (depth 3 quick / 4 thorough), "
+                "every string seen so far re-measured after every event; (d) all lists of <=3 segments over "
                 "8 texts x 3 styles + 2 control segments (third position reduced in quick) x length 0..6 x pad x pad style x "
                 "include_new_lines. A case is non-trivial when the operation actually crops, pads, splits, or re-measures "
                 "a string measured earlier; distinct = distinct outcome signatures." % _maxlen(tier),
@@ -495,6 +588,9 @@ def replay(case):
         for i, o in zip(case["history"], out):
             if o != sw(C_STRINGS[i]):
                 res.violate("cache-history/result-changed", case, "%r -> %r" % (C_STRINGS[i], o))
+    elif p == "c2":
+        vio, _ = _run_history2([tuple(e) for e in case["history"]])
+        return sorted(set(vio))
     elif p == "d":
         check_segments([tuple(d) for d in case["segs"]], case["length"], case["pad"], case["padstyle"],
                        case["incl"], res)
